@@ -243,6 +243,10 @@ theorem step_loopinv (cfg : Cfg) (s : St) (x : Act) (hi : LoopInv s) : LoopInv (
       | exact hi'
       | exact loopinv_setThr _ t _ trivial hi'
   | peerEof => simp only [step]; split <;> exact hi
+  | emitFail t =>
+    simp only [step]; split
+    · exact loopinv_setThr _ t _ trivial (loopinv_congr s _ rfl hi)
+    · exact hi
   | unlink => simp only [step]; split <;> exact hi
   | shutdownRead => exact hi
   | setMode m => exact hi
